@@ -8,13 +8,13 @@ import core
 import lockstep
 
 IMPORTS = ["Base.Dec", "Model.Exec", "Model.ExecShow", "Model.StepExec", "Model.StepShow", "Model.DepExec", "Model.DepShow",
-           "Model.FileExec", "Model.FileShow"]
-MODEL_VO = ["theories/Model/DepShow.vo", "theories/Model/FileShow.vo"]
+           "Model.FileExec", "Model.FileShow", "Model.CacheExec", "Model.CacheShow"]
+MODEL_VO = ["theories/Model/DepShow.vo", "theories/Model/FileShow.vo", "theories/Model/CacheShow.vo"]
 KINDS = {
     "block": (lockstep.gen_block_case, lockstep.coq_expr, lockstep.impl_lines, 800),
     "step": (lockstep.gen_step_case, lockstep.coq_expr_x, lockstep.impl_lines_x, 3000),
     "dep": (lockstep.gen_dep_case, lockstep.coq_expr_d, lockstep.impl_lines_d, 4000),
-    "cblock": (lockstep.gen_cblock_case, lockstep.coq_expr_c, lockstep.impl_lines_c, 1500),
+    "cblock": (lockstep.gen_cblock_case, lockstep.coq_expr_cc, lockstep.impl_lines_cc, 1500),
     "cstep": (lockstep.gen_cstep_case, lockstep.coq_expr_cx, lockstep.impl_lines_cx, 4000),
     "fexec": (lockstep.gen_fexec_case, lockstep.coq_expr_fs, lockstep.impl_lines_fs, 3000),
     "ublock": (lockstep.gen_ublock_case, lockstep.coq_expr, lockstep.impl_lines, 800),
@@ -57,7 +57,7 @@ def lockstep_compare(runs):
         il = KINDS[k][2](c, r)
         cut = lockstep.cut_at_reraise(r) if k not in ("block", "cblock") else None
         if k == "cblock":
-            d = lockstep.compare_noen(c, r, o)
+            d = lockstep.compare_lines(il, o, None)       # Model/CacheExec.v: every point compared, cache operations included
         elif k == "fexec":
             d = lockstep.compare_lines(il, o, None)
         elif k == "cstep":
